@@ -156,7 +156,8 @@ func (fr *Frame) callInPkg(callee *ssa.Function, args []Val, st *State, reach st
 		sub.paramVs[p] = args[i]
 		sub.params[p.Name()] = args[i]
 	}
-	c.tick(st, "1")
+	// an inlined (loop-free or separately annotated) callee is straight-line work of constant
+	// size: it is not charged, so that splitting out a helper does not change any bound
 	sub.run(st, reach)
 	fr.curState = st
 	// merge returns
